@@ -594,12 +594,12 @@ def get_vect_dim(observation: NumpyObsType, observation_space: spaces.Space) -> 
         return get_vect_dim(observation[0], observation_space[0])
     elif isinstance(observation_space, spaces.MultiBinary):
         return (
-            observation.shape[0]
-            if len(observation.shape) > len(observation_space.shape)
+            np.shape(observation)[0]
+            if len(np.shape(observation)) > len(observation_space.shape)
             else 1
         )
     else:
-        array_shape = observation.shape
+        array_shape = np.shape(observation)
         return array_shape[0] if len(array_shape) > len(observation_space.shape) else 1
 
 
